@@ -65,6 +65,12 @@ Lemma c12_mixed_adv_error hd sp ip ap inf inp r :
     (n_adv (fst sv) <> 0%nat -> (n_std (fst sv) + length (snd sv))%nat <> 0%nat -> fst r = FErrCreate).
 Proof. apply flatten_mixed_adv_error, gtt_guard. Qed.
 
+Lemma c12_mixed_adv_created hd sp ip ap inf all x y :
+  In x (pre all) -> created_a GTT hd ap x ->
+  In y (pre all) -> (created GA GT hd sp y \/ (b_kind y = KIAT /\ create_iat GTT hd ip y <> None)) ->
+  fst (finish GA GT GTT hd sp ip ap inf all) = FErrCreate.
+Proof. apply mixed_adv_created, gtt_guard. Qed.
+
 Lemma c12_create_never_mixed f f' :
   file_create_all GTT f = (true, f') ->
   file_is_adv f' = false \/ (forallb sb_is_adv (af_std f') = true /\ af_iat f' = []).
